@@ -16,11 +16,11 @@ BIN_ARITH = ["add", "sub", "mul", "div", "pow", "log"]
 UN_BOOL = ["not", "rise", "fall", "prev", "sprev", "next", "snext", "once", "hist", "ev", "alw"]
 UN_TIMED = ["onceT", "histT", "evT", "alwT"]
 BIN_BOOL = ["and", "or", "implies", "iff", "xor", "since", "until"]
-BIN_TIMED = ["sinceT", "untilT", "precT"]
+BIN_TIMED = ["sinceT", "untilT", "precT", "unlessT"]
 UN1 = set(UN_ARITH + UN_BOOL + UN_TIMED)
 BIN2 = set(BIN_ARITH + BIN_BOOL + BIN_TIMED + ["pred"])
 TIMED = set(UN_TIMED + BIN_TIMED)
-FUT = {"next", "snext", "ev", "alw", "until", "evT", "alwT", "untilT"}
+FUT = {"next", "snext", "ev", "alw", "until", "evT", "alwT", "untilT", "unlessT"}
 UNB_FUT = {"ev", "alw", "until"}
 PAST_STATEFUL = {"prev", "sprev", "once", "hist", "since", "onceT", "histT", "sinceT", "rise", "fall", "precT"}
 
@@ -31,7 +31,7 @@ KW = {"abs": "abs", "sqrt": "sqrt", "exp": "exp", "ln": "ln", "pow": "pow", "log
       "ev": "eventually", "alw": "always", "onceT": "once", "histT": "historically",
       "evT": "eventually", "alwT": "always", "and": "and", "or": "or", "implies": "implies",
       "iff": "iff", "xor": "xor", "since": "since", "until": "until", "sinceT": "since",
-      "untilT": "until", "add": "+", "sub": "-", "mul": "*", "div": "/"}
+      "untilT": "until", "unlessT": "unless", "add": "+", "sub": "-", "mul": "*", "div": "/"}
 
 
 def var(v): return {"op": "var", "v": v}
@@ -85,7 +85,7 @@ def horizon(p):
         return horizon(p["l"]) + 1
     if op in ("evT", "alwT"):
         return horizon(p["l"]) + p["b"]
-    if op == "untilT":
+    if op in ("untilT", "unlessT"):
         return max(horizon(p["l"]), horizon(p["r"])) + p["b"]
     return max(horizon(c) for c in children(p))
 
@@ -103,10 +103,11 @@ def num_text(c, S):
 
 
 def bound_text(p, which):
-    w = p.get(which + "w")
+    w = p.get(which + "t")            # literal text as written (at / bt), if the case spells it out
     if w is None:
         w = str(p[which])
-    return w + p.get(which + "u", "")
+    u = p.get(which + "u", "")
+    return w + (" " + u if u else "")
 
 
 def interval_text(p, sep=","):
@@ -138,7 +139,7 @@ def to_text(p, S=1):
         return KW[op] + " " + interval_text(p) + " ( " + to_text(p["l"], S) + " )"
     if op in ("and", "or", "implies", "iff", "xor", "since", "until"):
         return "( " + to_text(p["l"], S) + " ) " + KW[op] + " ( " + to_text(p["r"], S) + " )"
-    if op in ("sinceT", "untilT"):
+    if op in ("sinceT", "untilT", "unlessT"):
         return "( " + to_text(p["l"], S) + " ) " + KW[op] + " " + interval_text(p) + " ( " + to_text(p["r"], S) + " )"
     raise ValueError("cannot print " + op)
 
@@ -178,7 +179,7 @@ def scaled(val, S):
         return "bad:" + type(val).__name__
 
 
-def readback(node, S=1, samples=None):
+def readback(node, S=1, samples=None, full=False):
     """rtamt node -> dict.  Bounds are reported as written (numerator/denominator + unit);
     `samples`, if given, is a function (node) -> (a, b) used to attach the implementation's own
     normalisation."""
@@ -192,14 +193,20 @@ def readback(node, S=1, samples=None):
         return {"op": "const", "c": scaled(node.val, S)}
     if cn == "Predicate":
         return {"op": "pred", "cmp": _CMP_OP.get(node.operator.name, str(node.operator)),
-                "l": readback(node.children[0], S), "r": readback(node.children[1], S)}
+                "l": readback(node.children[0], S, full=full), "r": readback(node.children[1], S, full=full)}
     op = _CLASS_OP.get(cn)
     if op is None:
         return {"op": "unknown:" + cn}
-    d = {"op": op, "l": readback(node.children[0], S)}
+    d = {"op": op, "l": readback(node.children[0], S, full=full)}
     if op in BIN2:
-        d["r"] = readback(node.children[1], S)
-    if op in TIMED:
+        d["r"] = readback(node.children[1], S, full=full)
+    if op in TIMED and full:
+        for k, v, u in (("a", node.begin, node.begin_unit), ("b", node.end, node.end_unit)):
+            f = Fraction(v)
+            ok = abs(f.numerator) < 10 ** 8 and f.denominator < 10 ** 8
+            d[k + "w"] = [int(f.numerator), int(f.denominator)] if ok else [-1, 1]
+            d[k + "u"] = u if u in ("s", "ms", "us", "ns", "") else "?" + str(u)
+    elif op in TIMED:
         for k, v, u in (("a", node.begin, node.begin_unit), ("b", node.end, node.end_unit)):
             f = Fraction(v)
             if f.denominator == 1 and abs(f.numerator) < 10 ** 8:
